@@ -4,9 +4,10 @@ Correspondence: stateful protocol over 2 notifiers and 5 shared targets (0 plain
 3 batch+panicking, 4 batch).  After every operation both sides print the calls the targets received (canonical: the
 harness checks non-increasing priority on the raw delivery sequence against its own name->target->priority table and
 prints `order-ok|order-bad`, then the calls sorted by priority descending / target ascending), the number of reports
-the recovery handler got, BatchLevel() and Enabled().  `dump` lines compare the three internal maps (white-box accessor
-injected with -overlay) with the model's association lists: that observable is model detail (`model_only`).
-The `race` area is an implementation-side oracle run under the -race build."""
+the recovery handler got, BatchLevel() and Enabled() (area `notifier`, black box).  Area `nwb` is the same protocol with
+`dump` lines that compare the three internal maps (white-box accessor injected with -overlay) with the model's
+association lists: that observable is model detail (`model_only`) and is kept in a separate stream so that it cannot
+mask a behavioural difference.  The `race` area is an implementation-side oracle run under the -race build."""
 
 OVERLAY = {"notifier/zz_verif_dump.go": "c17_notifier_dump.go"}
 
@@ -33,14 +34,20 @@ def run(ctx):
     ]
     ctx.lean(props=["Props.C17"], drivers=["drv_c17"])
     ctx.harness("./cmd/c17", overlay=OVERLAY)
-    ctx.diff(area="notifier", driver="drv_c17", n={"quick": 120000, "thorough": 4000000}, stateful=True,
+    th = ("C17.notify_targets / notify_priority_order / no_textual_prefix / "
+          "disabled_or_unregistered_or_reset_silent / merge_spec / batch_nesting / maps_consistent / "
+          "panic_does_not_stop_delivery are theorems about the model Nt.step; the implementation differs "
+          "from that model on this history")
+    # black-box protocol: only calls received by targets, recovery reports, BatchLevel(), Enabled()
+    ctx.diff(area="notifier", driver="drv_c17", n={"quick": 100000, "thorough": 3000000}, stateful=True,
+             trivial=lambda l, o: o.startswith("order-ok | rec=0"), tagger=tagger, theorem=th)
+    # the same protocol with white-box dumps of productionMap / nameMap / batchTargets / currentBatch
+    # (representation detail: a difference only there is reported without a concrete failing input)
+    ctx.diff(area="nwb", driver="drv_c17", n={"quick": 40000, "thorough": 1000000}, stateful=True,
              trivial=lambda l, o: o.startswith("order-ok | rec=0"),
              model_only=lambda l: l.startswith("dump"),
-             tagger=tagger,
-             theorem="C17.notify_targets / notify_priority_order / no_textual_prefix / "
-                     "disabled_or_unregistered_or_reset_silent / merge_spec / batch_nesting / maps_consistent / "
-                     "panic_does_not_stop_delivery are theorems about the model Nt.step; the implementation differs "
-                     "from that model on this history")
+             theorem="C17.maps_consistent is a theorem about the model's three association lists; the implementation's "
+                     "maps differ from them on this history")
     if ctx.harness("./cmd/c17", name="race", race=True, overlay=OVERLAY):
         ctx.impl_oracle("race", {"quick": 24, "thorough": 400}, name="race",
                         label="goroutines registering/notifying/merging/batching concurrently under -race; "
